@@ -25,8 +25,9 @@ typedef int (*ccwait_t)(pthread_cond_t *, pthread_mutex_t *, clockid_t, const st
 typedef int (*csig_t)(pthread_cond_t *);
 typedef int (*create_t)(pthread_t *, const pthread_attr_t *, void * (*)(void *), void *);
 typedef int (*join_t)(pthread_t, void **);
+typedef int (*cgt_t)(clockid_t, struct timespec *);
 mlock_t r_lock, r_unlock, r_trylock;
-cwait_t r_wait; ctwait_t r_twait; ccwait_t r_cwait; csig_t r_signal, r_bcast; create_t r_create; join_t r_join;
+cwait_t r_wait; ctwait_t r_twait; ccwait_t r_cwait; csig_t r_signal, r_bcast; create_t r_create; join_t r_join; cgt_t r_cgt;
 std::atomic<bool> resolved{false};
 void resolve() {
     if (resolved.load(std::memory_order_acquire)) return;
@@ -36,6 +37,7 @@ void resolve() {
     r_cwait = (ccwait_t)dlsym(RTLD_NEXT, "pthread_cond_clockwait");
     r_signal = (csig_t)dlsym(RTLD_NEXT, "pthread_cond_signal"); r_bcast = (csig_t)dlsym(RTLD_NEXT, "pthread_cond_broadcast");
     r_create = (create_t)dlsym(RTLD_NEXT, "pthread_create"); r_join = (join_t)dlsym(RTLD_NEXT, "pthread_join");
+    r_cgt = (cgt_t)dlsym(RTLD_NEXT, "clock_gettime");
     resolved.store(true, std::memory_order_release);
 }
 __attribute__((constructor(101))) void init_real() { resolve(); }
@@ -44,7 +46,7 @@ enum St { RUNNABLE, WANT_MUTEX, WAIT_COND, WANT_JOIN, FINISHED };
 const char * stname[] = {"RUNNABLE", "WANT_MUTEX", "WAIT_COND", "WANT_JOIN", "FINISHED"};
 struct Th {
     int id; sem_t sem; St st; void * obj; void * obj2; pthread_t pt; void * (*fn)(void *); void * arg;
-    void * bt[32]; int nbt; long prio; bool timed; bool timedout; char site[96];
+    void * bt[32]; int nbt; long prio; bool timed; bool timedout; char site[96]; long long deadline_ns; clockid_t clk;
 };
 const int MAXT = 32;
 Th * T[MAXT]; int nT = 0;
@@ -60,6 +62,11 @@ int & owner_of(pthread_mutex_t * m) {
 }
 uint64_t rng; int strategy, sparam; uint64_t steps, switches, sig, budget = 0; int spurious = 0, timeouts = 0;
 uint64_t change_points[8]; int nchange = 0;
+// virtual time: session threads see real time + voff_ns; an injected timeout moves the clock past the waiter's deadline,
+// so that library code which re-checks the clock after a timed wait (libstdc++ does) really sees the timeout
+std::atomic<long long> voff_ns{0};
+long long real_now_ns(clockid_t c) { struct timespec ts; if (!r_cgt || r_cgt(c, &ts)) return 0; return (long long)ts.tv_sec * 1000000000LL + ts.tv_nsec; }
+void expire(Th * t) { long long need = t->deadline_ns - (real_now_ns(t->clk) + voff_ns.load()) + 1000000; if (need > 0) voff_ns.fetch_add(need); }
 const size_t LOGMAX = 1 << 20;
 uint8_t * slog = nullptr; size_t nlog = 0;
 const uint8_t * replay_seq = nullptr; size_t replay_n = 0, replay_i = 0;
@@ -172,13 +179,13 @@ void schedule() {
         for (int i = 0; i < nT; i++) if (T[i]->st == WAIT_COND && T[i] != me) { T[i]->st = WANT_MUTEX; T[i]->obj = T[i]->obj2; break; }
     // virtual time: a timed wait may time out at any scheduling point
     if (timeouts && (int)(rnd() % 1000) < timeouts)
-        for (int i = 0; i < nT; i++) if (T[i]->st == WAIT_COND && T[i]->timed && T[i] != me) { T[i]->st = WANT_MUTEX; T[i]->obj = T[i]->obj2; T[i]->timedout = true; break; }
+        for (int i = 0; i < nT; i++) if (T[i]->st == WAIT_COND && T[i]->timed && T[i] != me) { T[i]->st = WANT_MUTEX; T[i]->obj = T[i]->obj2; T[i]->timedout = true; expire(T[i]); break; }
     Th * cand[MAXT]; int nc = 0; bool allfin = true;
     for (int i = 0; i < nT; i++) { if (T[i]->st != FINISHED) allfin = false; if (enabled(T[i])) cand[nc++] = T[i]; }
     if (nc == 0) {
         if (allfin) { r_unlock(&G); return; }
         // timed waits may time out, but only when nothing else can run (so they never cause a false deadlock report)
-        for (int i = 0; i < nT && nc == 0; i++) if (T[i]->st == WAIT_COND && T[i]->timed) { T[i]->st = WANT_MUTEX; T[i]->obj = T[i]->obj2; T[i]->timedout = true; if (enabled(T[i])) cand[nc++] = T[i]; }
+        for (int i = 0; i < nT && nc == 0; i++) if (T[i]->st == WAIT_COND && T[i]->timed) { T[i]->st = WANT_MUTEX; T[i]->obj = T[i]->obj2; T[i]->timedout = true; expire(T[i]); if (enabled(T[i])) cand[nc++] = T[i]; }
         if (nc == 0) { report("deadlock"); r_unlock(&G); _exit(42); }
     }
     Th * next = nullptr;
@@ -247,6 +254,7 @@ void sched_begin(uint64_t seed, int strat, int param) {
     if (!slog) slog = (uint8_t *)malloc(LOGMAX);
     nchange = 0;
     if (strat == SCHED_PCT) { int d = param < 0 ? 0 : param > 8 ? 8 : param; for (int i = 0; i < d; i++) change_points[nchange++] = 1 + rnd() % 3000; }
+    voff_ns.store(0);
     self = reg();
     active.store(true, std::memory_order_release);
 }
@@ -290,7 +298,8 @@ int pthread_mutex_unlock(pthread_mutex_t * m) {
     if (!controlled()) { if (!resolved.load(std::memory_order_acquire)) resolve(); int rc = r_unlock(m); jitter(); return rc; }
     r_lock(&G); owner_of(m) = -1; self->st = RUNNABLE; schedule(); return 0;
 }
-static int do_wait(pthread_cond_t * c, pthread_mutex_t * m, bool timed) {
+static int do_wait(pthread_cond_t * c, pthread_mutex_t * m, bool timed, clockid_t clk = CLOCK_REALTIME, const struct timespec * abs = nullptr) {
+    self->clk = clk; self->deadline_ns = abs ? (long long)abs->tv_sec * 1000000000LL + abs->tv_nsec : 0;
     // pre-wait window: the predicate has been evaluated, the mutex is still held, the thread is not yet in the wait set.
     // Threads that need this mutex stay blocked; a notifier that does not take it can run here - and its wake-up is lost,
     // exactly as on real hardware.
@@ -308,11 +317,11 @@ int pthread_cond_wait(pthread_cond_t * c, pthread_mutex_t * m) {
 }
 int pthread_cond_timedwait(pthread_cond_t * c, pthread_mutex_t * m, const struct timespec * ts) {
     if (!controlled()) { if (!resolved.load(std::memory_order_acquire)) resolve(); return r_twait(c, m, ts); }
-    return do_wait(c, m, true);
+    return do_wait(c, m, true, CLOCK_REALTIME, ts);
 }
 int pthread_cond_clockwait(pthread_cond_t * c, pthread_mutex_t * m, clockid_t clk, const struct timespec * ts) {
     if (!controlled()) { if (!resolved.load(std::memory_order_acquire)) resolve(); return r_cwait ? r_cwait(c, m, clk, ts) : r_twait(c, m, ts); }
-    return do_wait(c, m, true);
+    return do_wait(c, m, true, clk, ts);
 }
 static void wake(pthread_cond_t * c, bool all) {
     // wake in a PRNG-chosen order so that "which waiter wins" is explored as well
@@ -337,6 +346,15 @@ int pthread_create(pthread_t * pt, const pthread_attr_t * a, void * (*fn)(void *
     r_lock(&G);
     if (rc != 0) t->st = FINISHED; else t->pt = *pt;
     self->st = RUNNABLE; schedule();
+    return rc;
+}
+int clock_gettime(clockid_t clk, struct timespec * ts) {
+    if (!resolved.load(std::memory_order_acquire)) resolve();
+    int rc = r_cgt(clk, ts);
+    if (rc == 0 && controlled() && (clk == CLOCK_MONOTONIC || clk == CLOCK_REALTIME)) {
+        long long v = voff_ns.load(std::memory_order_relaxed);
+        if (v) { long long t = (long long)ts->tv_sec * 1000000000LL + ts->tv_nsec + v; ts->tv_sec = t / 1000000000LL; ts->tv_nsec = t % 1000000000LL; }
+    }
     return rc;
 }
 int pthread_join(pthread_t pt, void ** r) {
